@@ -3,6 +3,7 @@ import StepModel.P21.ReaderLemmas11
 import StepModel.P21.ReaderLemmas14
 import StepModel.P21.ReaderLemmas17
 import StepModel.P21.ReaderLemmas18
+import StepModel.P21.ReaderLemmas19
 import StepModel.Generated.P21RWGen
 /-! # C01 — exchange files survive read-then-write: property theorems
 
@@ -1303,6 +1304,33 @@ theorem C01_read_file_redeclared_partial {F} (ops : FloatOps F) (lex : LexCfg) (
   · rw [hsev, hall]; rfl
   · rw [hc]; simp [xs]
   · rw [hv]; simp [xs]
+
+theorem alignedA_self {F} (ps : List (Param F)) (h : ∀ p ∈ ps, p.a.redefining = false) :
+    AlignedA (ps.map (·.a)) (ps.map (·.a)) := by
+  induction ps with
+  | nil => exact AlignedA.nil
+  | cons p t ih => exact AlignedA.keep p.a _ _ (h p (by simp)) (ih (fun q hq => h q (by simp [hq])))
+
+/-- `CPartCovered` gives `CPartOKF`: a covered part is read without a message and the `skipws` flag is kept or cleared
+    (what C03's mixed confinement theorem asks of the externally mapped records) -/
+theorem cpartCovered_okF {F} (env : Env F) (strict : Bool) (hcfg : env.lex.criSkipsComments = true)
+    (hagg : env.cfg.aggrSkipsComments = true) (hmc : env.cfg.missingCheckEverySecond = false)
+    (c : CPart F) (h : CPartCovered env c) : CPartOKF env strict c := by
+  cases h with
+  | params n0 ns sA sB hn0 hns hsA hsB ed hent ps hne hattrs hcv =>
+    refine ⟨hn0, hns, hsA, hsB, ed, hent, ?_⟩
+    intro l sk rest
+    rw [hattrs]
+    exact instSTEPread_aligned env strict hmc _ ps
+      (alignedA_self ps (fun p hp => (covered_rd env strict hcfg hagg p (hcv p hp)).1)) hne
+      (fun p hp => covered_rd env strict hcfg hagg p (hcv p hp)) (fun p hp => covered_head_ne41 env p (hcv p hp)) l sk rest
+  | empty n0 ns sA sB hn0 hns hsA hsB ed hent hattrs inner hin =>
+    refine ⟨hn0, hns, hsA, hsB, ed, hent, ?_⟩
+    intro l sk rest
+    refine ⟨sk, Or.inl rfl, ?_⟩
+    rw [hattrs]
+    have := C01_read_empty_record env strict inner hin l rest sk
+    simpa using this
 
 /-! ### data sections that mix internally and externally mapped records -/
 
